@@ -586,6 +586,218 @@ theorem c13_with_root_first (ro : List Member) (p : Nat) (r : List Member) (h : 
       simp [hkey]
   · simp at h
 
+/-! ### rotations of a roster -/
+
+private theorem rosterKeys_head (l : List Member) : (rosterKeys l).head? = l.head?.map (·.key) := by
+  cases l with
+  | nil => rfl
+  | cons m r => simp [rosterKeys, memberKeys]
+
+/-- **a rotated roster is another roster**: the members of a roster in another cyclic order (what
+`Roster.IsRotation` recognises) have another pre-image — for pairwise distinct server keys of one
+length; the order of the list is part of what a roster id identifies. -/
+theorem c13_rotation_new_preimage (L : Nat) (hL : 0 < L) (ro : List Member) (k : Nat) (hne : ro ≠ [])
+    (hk : k % ro.length ≠ 0) (hlen : ∀ key ∈ rosterKeys ro, key.length = L)
+    (hd : (ro.map (·.key)).Nodup) : rosterPre (rotl k ro) ≠ rosterPre ro := by
+  intro h
+  have hlt : k % ro.length < ro.length := Nat.mod_lt _ (List.length_pos_iff.mpr hne)
+  have hlen' : ∀ key ∈ rosterKeys (rotl k ro), key.length = L := by
+    intro key hkey
+    apply hlen
+    unfold rotl at hkey
+    rw [rosterKeys_append, List.mem_append] at hkey
+    have hsplit : rosterKeys ro = rosterKeys (ro.take (k % ro.length)) ++ rosterKeys (ro.drop (k % ro.length)) := by
+      rw [← rosterKeys_append, List.take_append_drop]
+    rw [hsplit, List.mem_append]
+    exact hkey.symm
+  have hkeys := (c13_roster_collision_iff L hL _ _ hlen' hlen).mp h
+  have hhead := congrArg List.head? hkeys
+  rw [rosterKeys_head, rosterKeys_head] at hhead
+  unfold rotl at hhead
+  have hdrop : (ro.drop (k % ro.length)).head? = ro[k % ro.length]? := List.head?_drop
+  have h0 : ro.head? = some (ro[0]'(List.length_pos_iff.mpr hne)) := by
+    rw [List.head?_eq_getElem?, List.getElem?_eq_getElem (List.length_pos_iff.mpr hne)]
+  rw [List.head?_append, hdrop, List.getElem?_eq_getElem hlt, h0] at hhead
+  simp only [Option.some_or, Option.map_some, Option.some.injEq] at hhead
+  have h1 : (ro.map (·.key))[k % ro.length]'(by simpa using hlt) = (ro.map (·.key))[0]'(by simpa using List.length_pos_iff.mpr hne) := by
+    simpa using hhead
+  have := (List.getElem_inj hd).mp h1
+  exact hk this
+
+theorem c13_rotation_new_id (H : HashFns) (L : Nat) (hL : 0 < L) (ro : List Member) (k : Nat) (hne : ro ≠ [])
+    (hk : k % ro.length ≠ 0) (hlen : ∀ key ∈ rosterKeys ro, key.length = L) (hd : (ro.map (·.key)).Nodup)
+    (hcf : rosterIdOfPre H (rosterPre (rotl k ro)) = rosterIdOfPre H (rosterPre ro) → rosterPre (rotl k ro) = rosterPre ro) :
+    rosterId H (rotl k ro) ≠ rosterId H ro :=
+  fun h => c13_rotation_new_preimage L hL ro k hne hk hlen hd (hcf h)
+
+/-! ### the methods of the identifier types -/
+
+/-- `Equal` is equality of the sixteen bytes, `IsNil` equality with the nil UUID -/
+theorem c13_id_equal_iff (a b : Bytes) : (idEqual a b = true ↔ a = b) ∧ (idIsNil a = true ↔ a = nilUuid) := by
+  simp [idEqual, idIsNil]
+
+/-! ### registries: the identifier of a service or protocol is a function of its name alone -/
+
+/-- every entry of a service factory carries the hash of its own name -/
+def RegOK (H : HashFns) (reg : List SvcEntry) : Prop := ∀ e ∈ reg, e.id = serviceId H e.name
+
+/-- what can be done to a service factory -/
+inductive SvcOp where
+  | reg (name : Bytes) (suite : Option String)
+  | unreg (name : Bytes)
+
+def svcStep (H : HashFns) (reg : List SvcEntry) : SvcOp → List SvcEntry
+  | .reg n s => ((svcRegister H reg n s).1).getD reg
+  | .unreg n => (svcUnregister reg n).getD reg
+
+private theorem svcStep_ok (H : HashFns) (reg : List SvcEntry) (op : SvcOp) (h : RegOK H reg) : RegOK H (svcStep H reg op) := by
+  cases op with
+  | reg n su =>
+    simp only [svcStep, svcRegister]
+    split
+    · intro e he
+      simp only [Option.getD_some, List.mem_append, List.mem_singleton] at he
+      rcases he with he | he
+      · exact h e he
+      · subst he; rfl
+    · simpa using h
+  | unreg n =>
+    simp only [svcStep, svcUnregister]
+    split
+    · intro e he
+      exact h e (List.mem_of_mem_eraseIdx (by simpa using he))
+    · simpa using h
+
+/-- **the id a service gets at registration is the hash of its name** — after any history of
+registrations (with whatever suites) and unregistrations, and whatever suite this registration
+names: the suite is stored with the entry, it is no part of the identifier.  In particular the
+same name registered with and without a suite, before and after an unregistration, on this factory
+or another, gets the same identifier. -/
+theorem c13_service_id_function_of_name (H : HashFns) (ops : List SvcOp) :
+    RegOK H (ops.foldl (svcStep H) []) ∧
+    ∀ name suite reg' id, svcRegister H (ops.foldl (svcStep H) []) name suite = (some reg', id) → id = serviceId H name := by
+  constructor
+  · have : ∀ (ops : List SvcOp) (reg : List SvcEntry), RegOK H reg → RegOK H (ops.foldl (svcStep H) reg) := by
+      intro ops
+      induction ops with
+      | nil => intro reg h; exact h
+      | cons op rest ih => intro reg h; exact ih _ (svcStep_ok H reg op h)
+    exact this ops [] (fun e he => by simp at he)
+  · intro name suite reg' id h
+    simp only [svcRegister] at h
+    split at h
+    · simp only [Prod.mk.injEq] at h; exact h.2.symm
+    · simp at h
+
+/-- two registrations of one name give one identifier, whatever the two factories hold and whatever
+the two suites are -/
+theorem c13_service_id_independent_of_suite (H : HashFns) (reg₁ reg₂ r₁ r₂ : List SvcEntry) (name id₁ id₂ : Bytes)
+    (s₁ s₂ : Option String) (h₁ : svcRegister H reg₁ name s₁ = (some r₁, id₁))
+    (h₂ : svcRegister H reg₂ name s₂ = (some r₂, id₂)) : id₁ = id₂ := by
+  simp only [svcRegister] at h₁ h₂
+  split at h₁ <;> split at h₂ <;> simp_all
+
+/-- **name → id → name**: in a factory whose entries carry the hashes of their names, and on whose
+names the hash does not collide, `ServiceID` and `Name` are inverse to each other on every
+registered service -/
+theorem c13_service_name_roundtrip (H : HashFns) (reg : List SvcEntry) (hok : RegOK H reg)
+    (hcf : ∀ e ∈ reg, ∀ e' ∈ reg, e.id = e'.id → e.name = e'.name) (e : SvcEntry) (he : e ∈ reg) :
+    svcLookupId reg e.name = e.id ∧ svcLookupName reg e.id = e.name := by
+  constructor
+  · unfold svcLookupId
+    cases hf : reg.find? (fun x => x.name == e.name) with
+    | none =>
+      have := List.find?_eq_none.mp hf e he
+      simp at this
+    | some x =>
+      have hx := List.find?_some hf
+      have hm := List.mem_of_find?_eq_some hf
+      simp only [beq_iff_eq] at hx
+      simp only
+      rw [hok x hm, hok e he, hx]
+  · unfold svcLookupName
+    cases hf : reg.find? (fun x => idEqual e.id x.id) with
+    | none =>
+      have := List.find?_eq_none.mp hf e he
+      simp [idEqual] at this
+    | some x =>
+      have hx := List.find?_some hf
+      have hm := List.mem_of_find?_eq_some hf
+      simp only [idEqual, beq_iff_eq] at hx
+      exact (hcf e he x hm hx).symm
+
+/-- the same for the protocol table, in whatever order the table is walked (the code ranges over a
+map): a registered name is found again from its identifier as long as the hash does not collide on
+the registered names -/
+theorem c13_proto_name_roundtrip (H : HashFns) (reg : List Bytes)
+    (hcf : ∀ a ∈ reg, ∀ b ∈ reg, protoId H a = protoId H b → a = b) (n : Bytes) (hn : n ∈ reg) :
+    protoIdToName H reg (protoId H n) = some n ∧ (protoRegister H reg n).1 = none := by
+  constructor
+  · unfold protoIdToName
+    cases hf : reg.find? (fun x => idEqual (protoId H n) (protoId H x)) with
+    | none =>
+      have := List.find?_eq_none.mp hf n hn
+      simp [idEqual] at this
+    | some x =>
+      have hx := List.find?_some hf
+      have hm := List.mem_of_find?_eq_some hf
+      simp only [idEqual, beq_iff_eq] at hx
+      rw [hcf n hn x hm hx]
+  · simp [protoRegister, hn]
+
+/-- a fresh name is registered under `ProtocolNameToID` of itself -/
+theorem c13_proto_register_id (H : HashFns) (reg reg' : List Bytes) (n id : Bytes)
+    (h : protoRegister H reg n = (some reg', id)) : id = protoId H n ∧ n ∈ reg' := by
+  simp only [protoRegister] at h
+  split at h
+  · simp at h
+  · simp only [Prod.mk.injEq, Option.some.injEq] at h
+    exact ⟨h.2.symm, by rw [← h.1]; simp⟩
+
+/-! ### peer-set identifiers -/
+
+/-- the pre-image `serviceID ‖ data` determines both parts (the service id has a fixed length) -/
+theorem c13_peerset_preimage_injective (s₁ s₂ d₁ d₂ : Bytes) (h₁ : s₁.length = 16) (h₂ : s₂.length = 16)
+    (h : peerSetPre s₁ d₁ = peerSetPre s₂ d₂) : s₁ = s₂ ∧ d₁ = d₂ :=
+  List.append_inj h (h₁.trans h₂.symm)
+
+theorem c13_peerset_ids_distinct (H : HashFns) (s₁ s₂ d₁ d₂ : Bytes) (h₁ : s₁.length = 16) (h₂ : s₂.length = 16)
+    (hne : s₁ ≠ s₂ ∨ d₁ ≠ d₂)
+    (hcf : peerSetId H s₁ d₁ = peerSetId H s₂ d₂ → peerSetPre s₁ d₁ = peerSetPre s₂ d₂) :
+    peerSetId H s₁ d₁ ≠ peerSetId H s₂ d₂ := by
+  intro h
+  obtain ⟨a, b⟩ := c13_peerset_preimage_injective s₁ s₂ d₁ d₂ h₁ h₂ (hcf h)
+  rcases hne with hne | hne
+  · exact hne a
+  · exact hne b
+
+/-! ### determinism, for every kind of identifier -/
+
+/-- **every identifier is a function of its pre-image, and the pre-image a function of the value
+identified** — for any hash functions: equal values (tokens, names, keys, member lists, roster id
+and forest, service id and data) have equal identifiers.  Nothing else — object identity, address,
+process, the time or order of construction, registration history — is an argument of these
+functions; that the Go code has no further input either is what the correspondence run (rebuilt
+copies, re-used objects, second process) checks. -/
+theorem c13_ids_are_functions_of_preimages (H : HashFns) :
+    (∀ t₁ t₂ : Token, tokenPre t₁ = tokenPre t₂ → tokenId H t₁ = tokenId H t₂) ∧
+    (∀ n₁ n₂ : Bytes, protoPre n₁ = protoPre n₂ → protoId H n₁ = protoId H n₂) ∧
+    (∀ n₁ n₂ : Bytes, servicePre n₁ = servicePre n₂ → serviceId H n₁ = serviceId H n₂) ∧
+    (∀ k₁ k₂ : Bytes, serverPre k₁ = serverPre k₂ → serverId H k₁ = serverId H k₂) ∧
+    (∀ k₁ k₂ : Bytes, nodePre k₁ = nodePre k₂ → nodeId H k₁ = nodeId H k₂) ∧
+    (∀ r₁ r₂ : List Member, rosterPre r₁ = rosterPre r₂ → rosterId H r₁ = rosterId H r₂) ∧
+    (∀ (rid : Bytes) (f g : Forest), dfs f = dfs g → treeId H rid f = treeId H rid g) ∧
+    (∀ s₁ s₂ d₁ d₂ : Bytes, peerSetPre s₁ d₁ = peerSetPre s₂ d₂ → peerSetId H s₁ d₁ = peerSetId H s₂ d₂) := by
+  refine ⟨?_, ?_, ?_, ?_, ?_, ?_, ?_, ?_⟩
+  · intro a b h; unfold tokenId; rw [h]
+  · intro a b h; unfold protoId; rw [h]
+  · intro a b h; unfold serviceId; rw [h]
+  · intro a b h; unfold serverId; rw [h]
+  · intro a b h; unfold nodeId; rw [h]
+  · intro a b h; unfold rosterId; rw [h]
+  · intro rid f g h; unfold treeId; rw [h]
+  · intro a b c d h; unfold peerSetId; rw [h]
+
 /-! ### the code regions the model stands for
 Regenerated from /repo's source on every run (`harness/cmd/astfacts` → `OnetVerif/Shapes.lean`): the
 calls that matter for synchronisation and data flow, the lock regions and (for decision logic) the
@@ -638,6 +850,82 @@ theorem c13_shape_Roster_RandomSubset :
     Shapes.tree_Roster_RandomSubset =
    ["if:(n>len(ro.List))", "securePermute", "if:!ro.List[].ID.Equal(root.ID)",
      "if:(len(out)==(n+1))", "return:NewRoster(out)"] := rfl
+
+
+theorem c13_shape_serviceFactory_Register :
+    Shapes.service_serviceFactory_Register =
+   ["if:!s.ServiceID().Equal(NilServiceID)", "return:NilServiceID,xerrors.Errorf(\"\",name)",
+     "uuid.NewSHA1", "ServiceID", "mutex.Lock", "defer:mutex.Unlock", "return:id,nil"] := rfl
+
+theorem c13_shape_serviceFactory_Unregister :
+    Shapes.service_serviceFactory_Unregister =
+   ["mutex.Lock", "defer:mutex.Unlock", "if:(c.name==name)", "if:(index<0)",
+     "return:xerrors.New((\"\"+name))", "return:nil"] := rfl
+
+theorem c13_shape_serviceFactory_ServiceID :
+    Shapes.service_serviceFactory_ServiceID =
+   ["mutex.RLock", "defer:mutex.RUnlock", "if:(name==c.name)", "return:c.serviceID",
+     "return:NilServiceID"] := rfl
+
+theorem c13_shape_serviceFactory_Name :
+    Shapes.service_serviceFactory_Name =
+   ["mutex.RLock", "defer:mutex.RUnlock", "if:id.Equal(c.serviceID)", "return:c.name",
+     "return:\"\""] := rfl
+
+theorem c13_shape_RegisterNewService :
+    Shapes.service_RegisterNewService =
+   ["ServiceFactory.Register"] := rfl
+
+theorem c13_shape_RegisterNewServiceWithSuite :
+    Shapes.service_RegisterNewServiceWithSuite =
+   ["ServiceFactory.Register"] := rfl
+
+theorem c13_shape_ProtocolNameToID :
+    Shapes.protocol_ProtocolNameToID =
+   ["uuid.NewMD5", "ProtocolID"] := rfl
+
+theorem c13_shape_protocolStorage_Register :
+    Shapes.protocol_protocolStorage_Register =
+   ["ps.Lock", "defer:ps.Unlock", "ProtocolNameToID", "if:exists",
+     "return:ProtocolID(uuid.Nil),xerrors.Errorf(\"\",name)", "return:id,nil"] := rfl
+
+theorem c13_shape_protocolStorage_ProtocolIDToName :
+    Shapes.protocol_protocolStorage_ProtocolIDToName =
+   ["ps.Lock", "defer:ps.Unlock", "if:id.Equal(ProtocolNameToID(n))", "return:n", "return:\"\""] := rfl
+
+theorem c13_shape_GlobalProtocolRegister :
+    Shapes.protocol_GlobalProtocolRegister =
+   ["protocols.Lock", "protocols.Unlock", "protocols.Unlock", "protocols.Register"] := rfl
+
+theorem c13_shape_Context_NewPeerSetID :
+    Shapes.context_Context_NewPeerSetID =
+   ["sha256.New", "h.Write", "h.Write", "h.Sum", "network.NewPeerSetID"] := rfl
+
+theorem c13_shape_router_NewPeerSetID :
+    Shapes.network_router_NewPeerSetID =
+   ["copy"] := rfl
+
+theorem c13_shape_struct_ServerIdentity_GetID :
+    Shapes.network_struct_ServerIdentity_GetID =
+   ["ServerIdentityID", "Public.String", "uuid.NewSHA1", "ServerIdentityID"] := rfl
+
+theorem c13_shape_struct_NewServerIdentity :
+    Shapes.network_struct_NewServerIdentity =
+   ["si.GetID"] := rfl
+
+theorem c13_shape_TreeNode_Visit :
+    Shapes.tree_TreeNode_Visit =
+   ["fn", "c.Visit"] := rfl
+
+theorem c13_shape_Roster_IsRotation :
+    Shapes.tree_Roster_IsRotation =
+   ["if:(target==nil)", "return:false", "if:(n<2)", "return:false", "if:(n!=len(target.List))",
+     "return:false", "if:sid.Equal(ro.List[])", "if:((offset==0)||(offset>=n))", "return:false",
+     "if:!sid.Equal(target.List[])", "return:false", "return:true"] := rfl
+
+theorem c13_shape_Roster_Equal :
+    Shapes.tree_Roster_Equal =
+   ["ro.GetID", "other.GetID", "roID.Equal"] := rfl
 
 
 end C13
